@@ -27,18 +27,19 @@ static std::vector<type_id> gen_ids(Rng& rng, int flavour, int n) {
     uint64_t base = 0x550000000000ull + (rng.next() & 0xfffffff000ull);
     int j = rng.range(0, 20);
     uint64_t low = rng.next() & 0xffff;
-    int k = 0;
-    while ((int)s.size() < n) {
+    uint64_t k = 0;
+    // (bounded: a flavour whose ids wrap around cannot produce more than so many distinct values)
+    while ((int)s.size() < n && k < 200000) {
         type_id id = 0;
         switch (flavour) {
         case 0: // heap / data segment like: base + multiples of 8..64 with gaps
-            id = base + (uint64_t)(k * (8 << (j % 4))) + (rng.chance(1, 4) ? 8 * rng.below(4) : 0);
+            id = base + k * (uint64_t)(8 << (j % 4)) + (rng.chance(1, 4) ? 8 * rng.below(4) : 0);
             break;
         case 1:
-            id = base + ((uint64_t)k << j);
+            id = base + (k << j);
             break;
         case 2:
-            id = ((uint64_t)(k + 1) << (44 + j % 12)) | low;
+            id = ((uint64_t)(k + 1) << (44 + j % 10)) | low; // (up to 1023 values fit below bit 64)
             break;
         case 3:
             id = (type_id)(k + (rng.chance(1, 5) ? rng.below(3) : 0));
@@ -47,10 +48,10 @@ static std::vector<type_id> gen_ids(Rng& rng, int flavour, int n) {
             id = rng.next();
             break;
         case 5: // type_info objects in .data.rel.ro: 16 or 24 byte objects, mixed
-            id = base + (uint64_t)k * 16 + (rng.chance(1, 3) ? 8 : 0);
+            id = base + k * 16 + (rng.chance(1, 3) ? 8 : 0);
             break;
         case 6: // pairs of ids that differ only in the top bit; id 0 and the largest legal id included
-            id = (base + (uint64_t)(k / 2) * 24) | ((uint64_t)(k & 1) << 63);
+            id = (base + (k / 2) * 24) | ((k & 1) << 63);
             if (k == 0 && rng.chance(1, 2))
                 id = 0;
             if (k == 1 && rng.chance(1, 2))
